@@ -5,6 +5,7 @@ import (
 	"go/token"
 	"go/types"
 	"sort"
+	"strings"
 
 	"golang.org/x/tools/go/ssa"
 
@@ -332,6 +333,18 @@ func (c *Ctx) guardedBy(table []gField, minAccesses int) {
 		key := lockKey{row.mutex}
 		for _, fn := range c.P.Funcs {
 			acc := accessesOf(fn, row.field, row.mutators)
+			if len(acc) > 0 && c.pointerSetOnce(row.field) {
+				// asking whether a pointer that is set once, when the object
+				// is built, is nil at all is no access to what it points to
+				var kept []fieldAccess
+				for _, a := range acc {
+					if fa, ok := a.in.(*ssa.FieldAddr); ok && onlyNilTested(fa) {
+						continue
+					}
+					kept = append(kept, a)
+				}
+				acc = kept
+			}
 			if len(acc) == 0 {
 				continue
 			}
@@ -390,4 +403,56 @@ func (c *Ctx) guardedBy(table []gField, minAccesses int) {
 	if total < minAccesses {
 		c.undecided("guarded-by table | access floor", "", fmt.Sprintf("found %d accesses to tabled fields, the rule table requires at least %d", total, minAccesses))
 	}
+}
+
+// onlyNilTested: the field address is only loaded, and the loaded value only
+// compared with nil.
+func onlyNilTested(fa *ssa.FieldAddr) bool {
+	refs := ir.Refs(fa)
+	if len(refs) == 0 {
+		return false
+	}
+	for _, r := range refs {
+		ld, ok := r.(*ssa.UnOp)
+		if !ok || ld.Op != token.MUL {
+			return false
+		}
+		lrefs := ir.Refs(ld)
+		if len(lrefs) == 0 {
+			return false
+		}
+		for _, rr := range lrefs {
+			b, ok := rr.(*ssa.BinOp)
+			if !ok || (b.Op != token.EQL && b.Op != token.NEQ) || !(ir.IsNil(b.X) || ir.IsNil(b.Y)) {
+				return false
+			}
+		}
+	}
+	return true
+}
+
+// pointerSetOnce: the field holds a pointer and is stored to only inside
+// constructor functions (New.. / new..) of its package.
+func (c *Ctx) pointerSetOnce(f *types.Var) bool {
+	if _, isPtr := f.Type().Underlying().(*types.Pointer); !isPtr {
+		return false
+	}
+	if v, ok := c.setOnce[f]; ok {
+		return v
+	}
+	if c.setOnce == nil {
+		c.setOnce = map[*types.Var]bool{}
+	}
+	okv := true
+	for _, fn := range c.P.Funcs {
+		for _, st := range find(fn, storeToField(f)) {
+			_ = st
+			n := outermost(fn).Name()
+			if !(strings.HasPrefix(n, "New") || strings.HasPrefix(n, "new")) {
+				okv = false
+			}
+		}
+	}
+	c.setOnce[f] = okv
+	return okv
 }
